@@ -13,10 +13,21 @@ def one(sid):
         r = subprocess.run(["patch", "-p1", "-s", "-i", os.path.join(ROOT, sid, "patch.diff")], cwd=d, capture_output=True, text=True)
         if r.returncode != 0:
             return sid, {"error": "patch does not apply to the current tree: " + (r.stdout + r.stderr)[-200:]}
-        r = subprocess.run(["./check", prop, "--tier", os.environ.get("TIER", "quick")], cwd="/verif",
-                           env=dict(os.environ, VERIF_REPO=d, VERIF_EVIDENCE_DIR=d + "/.ev", VERIF_NPROC="6"), capture_output=True, text=True)
-        sigs = [l.strip().split(": ")[1] for l in r.stdout.splitlines() if l.startswith("  violation x")]
-        return sid, {"check": prop, "exit": r.returncode, "caught": r.returncode == 1, "signatures": sorted(set(sigs))[:6]}
+        meta = json.load(open(os.path.join(ROOT, sid, "meta.json")))
+        out = {"check": prop, "obsolete": bool(meta.get("obsolete"))}
+        caught_by = []
+        for n, chk in enumerate([prop] + list(meta.get("also_checks", []))):
+            r = subprocess.run(["./check", chk, "--tier", os.environ.get("TIER", "quick")], cwd="/verif",
+                               env=dict(os.environ, VERIF_REPO=d, VERIF_EVIDENCE_DIR=d + "/.ev", VERIF_NPROC="6"), capture_output=True, text=True)
+            sigs = [l.strip().split(": ")[1] for l in r.stdout.splitlines() if l.startswith("  violation x")]
+            if n == 0:
+                out.update({"exit": r.returncode, "caught": r.returncode == 1, "signatures": sorted(set(sigs))[:6]})
+            else:
+                out.setdefault("other_checks", {})[chk] = {"exit": r.returncode, "signatures": sorted(set(sigs))[:3]}
+            if r.returncode == 1:
+                caught_by.append(chk)
+        out["caught_by"] = caught_by
+        return sid, out
     finally:
         shutil.rmtree(d, ignore_errors=True)
 
@@ -27,4 +38,4 @@ old = json.load(open(path)) if os.path.exists(path) else {}
 old.update(res)
 json.dump(old, open(path, "w"), indent=1, sort_keys=True)
 for k in sorted(res):
-    print(k, res[k].get("exit"), res[k].get("error", ""), (res[k].get("signatures") or [""])[0][:100])
+    print(k, res[k].get("exit"), ",".join(res[k].get("caught_by", [])) or "-", res[k].get("error", ""), (res[k].get("signatures") or [""])[0][:100])
